@@ -255,6 +255,9 @@ CATALOG = [
     ("P", lambda r: ["put", r.choice(["print \"nr=\".NR", "begin{print \"begin\"} end{print \"end\"}", "printn $a; print \"\"", "NR % 2 == 0 {print \"even \" . NR}",
                                       "end{print \"count=\" . NR}", "emit {\"extra\": NR}", "$k = NR; NR == 2 {emit {\"two\": $a}}", "end{dump}", "@last = $*; end{emit @last}"])]),
     ("P", lambda r: ["put", "-S", "func f(str s): str { return s . \"!\" } $a = f($a); end { print \"done\" }"]),
+    # redirects to the process's own stdout / stderr
+    ("P", lambda r: ["put", "-q", r.choice(["tee > stdout, $*", "emit > stdout, $*", "print > stdout, $a", "tee > stdout, $*; print \"p\" . NR", "print > stderr, $a; emit $*",
+                                            "dump > stdout, {\"a\": $a}; emit $*", "emit > stdout, mapsum($*, {\"nr\": NR}); print \"after\""])]),
     # emitted values must be snapshots: the variable keeps changing while emitted records are still in flight
     ("P", lambda r: ["put", "-q", r.choice(["@c[\"v\"] = $i; emit1 @c", "@c[$a] = NR; emit1 @c", "@c[\"v\"] = $i; emit @c", "@c[$a][$b] = $i; emitp @c, \"a\"",
                                             "@last = $*; emit @last", "@m = {\"i\": $i}; emit1 @m; @m[\"i\"] = -1", "map m = {\"a\": $a}; emit1 m; m[\"a\"] = \"changed\"",
